@@ -14,6 +14,7 @@ Clause → theorem (details in notes/C01.md):
   line (incr./decr./flat/zero ends)    C01_line   (C01_line_flat: from = to is the const profile)
   step = one const per level           C01_step   (chaining of the parts: C02_seq_chain / C02_conc_*)
   once                                 C01_once
+  every prefix instant                 C01_prefix
   bounds, finish, Left                 C01_leaf_run, C01_finish, C01_bounds, C01_left_before_start
 -/
 import Pandora.Proofs.C01
@@ -159,6 +160,36 @@ theorem C01_step (f t : ℝ) (s D : ℤ) (h : StepConfig_valid f t s D) :
     obtain ⟨h1, h2⟩ := loopLE_levels f t s hs r hr
     exact ⟨h1, h2, (ConstConfig_valid_iff r D).mpr ⟨le_trans hf h1, hD⟩⟩
 
+/-- **every prefix instant**: at every instant `y` of the profile, operation `k` has been scheduled by `y` exactly when
+the integral up to `y` has reached `k` — i.e. the number of operations scheduled in [0, y] is the number of
+k = 0, 1, … with k ≤ ∫₀ʸ rate (const is the flat line `from = to`). -/
+theorem C01_prefix (f t : ℝ) (D : ℤ) (h : LineConfig_valid f t D) (k x y : ℝ)
+    (hx : EarliestAt (lineCum f t D) D k x) (hy0 : 0 ≤ y) (hyD : y ≤ secs D) :
+    x ≤ y ↔ k ≤ lineCum f t D y := by
+  obtain ⟨hf, ht, hD⟩ := (LineConfig_valid_iff f t D).mp h
+  have hs := secs_pos' (D := D) (by omega)
+  obtain ⟨hx0, hxD, hcx, hmin⟩ := hx
+  constructor
+  · intro hxy
+    -- the rate is non-negative on [0, D], so the integral does not decrease from x to y
+    have hrate : ∀ z, 0 ≤ z → z ≤ secs D → 0 ≤ f + (t - f) / secs D * z := by
+      intro z hz0 hzD
+      have e : f + (t - f) / secs D * z = (f * (secs D - z) + t * z) / secs D := by field_simp; ring
+      rw [e]
+      exact div_nonneg (add_nonneg (mul_nonneg hf (by linarith)) (mul_nonneg ht hz0)) hs.le
+    have hdiff : lineCum f t D y - lineCum f t D x =
+        (y - x) * ((f + (t - f) / secs D * x) + (f + (t - f) / secs D * y)) / 2 := by
+      unfold lineCum; field_simp; ring
+    have h1 := hrate x hx0 hxD
+    have h2 := hrate y hy0 hyD
+    have : 0 ≤ (y - x) * ((f + (t - f) / secs D * x) + (f + (t - f) / secs D * y)) / 2 :=
+      div_nonneg (mul_nonneg (by linarith) (by linarith)) (by norm_num)
+    linarith
+  · intro hk
+    by_contra hlt
+    have := hmin y hy0 (not_le.mp hlt)
+    linarith
+
 /-! ### bounds and finish time: what a started leaf answers -/
 
 /-- A leaf `doAt D n f` started at `t0` answers call number j (0-based) of `Next` with `(t0 + f j, true)` while
@@ -239,6 +270,11 @@ example : ⌊lineCum 0 10 1500000000 (secs 1500000000)⌋ = 7 := by
   unfold secs; rw [Int.floor_eq_iff]; norm_num
 example : StepConfig_valid 1 10 3 1500000000 ∧ (1:ℝ) ≠ 10 := by unfold StepConfig_valid; norm_num
 example : StepConfig_valid 5 5 1 1000000 := by unfold StepConfig_valid; norm_num
+-- C01_prefix: an earliest instant and a later instant of a real profile (operation 1 of const 2/s over 1 s, y = 0.75 s)
+example : EarliestAt (lineCum 2 2 1000000000) 1000000000 1 0.5 ∧ (0:ℝ) ≤ 0.75 ∧ (0.75:ℝ) ≤ secs 1000000000 := by
+  unfold EarliestAt lineCum secs
+  refine ⟨⟨by norm_num, by norm_num, by norm_num, ?_⟩, by norm_num, by norm_num⟩
+  intro y _ hy; norm_num; linarith
 example : OnceConfig_valid 3 := by unfold OnceConfig_valid; norm_num
 -- a run in which the profile is exhausted (C01_finish) and a leaf that realises a profile (C01_bounds)
 example : ∃ rs, startAndDrain 1000 2 (fun i => i * 10) 5 [0, 0, 0] = Except.ok rs ∧ 2 < rs.length ∧ (2:ℤ) ≤ ((2:ℕ):ℤ) :=
